@@ -342,6 +342,36 @@ def _kind_specific(space, meta, rng, deep):
                 add("space:dof_entity:" + tag, "global dof %d has %d local dofs" % (d, len(lst)))
                 break
 
+    if (kind, degree) == ("DUAL", 1) and space.grid is not cgrid:
+        # DOF <-> entity: the i-th function belongs to the i-th requested element (numbering of the coarse DP0 space) and takes
+        # the value 1 at the barycentre of that element, 0 at the barycentres of all other elements (decided on the
+        # barycentric grid: barycentric element 6e+0 has the barycentre of coarse element e as one of its corners)
+        req = requested_support(topo, D, opts)
+        elems = np.flatnonzero(req)
+        if len(elems) == space.global_dof_count:
+            bg = space.grid
+            BV, BE = np.asarray(bg.vertices), np.asarray(bg.elements).astype(np.int64)
+            CV, CE = np.asarray(cgrid.vertices), np.asarray(cgrid.elements).astype(np.int64)
+            Tm = space.dof_transformation.toarray()
+            bl2g = np.asarray(space.local2global).astype(int)
+            bsup = np.asarray(space.support).astype(bool)
+            corners = np.array([[0.0, 1.0, 0.0], [0.0, 0.0, 1.0]])
+            scale_ = float(np.linalg.norm(CV[:, CE[1]] - CV[:, CE[0]], axis=0).max())
+            for i, e in enumerate(elems):
+                be = 6 * int(e)
+                cen = CV[:, CE[:, e]].mean(axis=1)
+                dist = np.linalg.norm(BV[:, BE[:, be]] - cen[:, None], axis=0)
+                corner = int(np.argmin(dist))
+                if dist[corner] > 1e-9 * scale_ or not bsup[be]:
+                    add("space:dof_entity:" + tag, "barycentric element %d is not attached to the barycentre of coarse element %d (or not in the support)" % (be, e))
+                    break
+                row = space.evaluate(be, corners)[0][:, corner] @ Tm[bl2g[be]]
+                want_row = np.zeros(space.global_dof_count)
+                want_row[i] = 1.0
+                if np.abs(row - want_row).max() > 1e-12:
+                    add("space:dof_entity:" + tag, "at the barycentre of element %d (the %d-th selected element) the basis takes the values %s instead of the unit vector e_%d (opts %s)"
+                        % (e, i, np.round(row, 3).tolist()[:12], i, opts_key(opts)))
+                    break
     if deep:
         P += _conformity(space, meta, topo, D, rng)
     return P
